@@ -74,6 +74,7 @@ MonInit(S) ==
     hooks     |-> <<>>,                    \* hook events seen: <<which, b, epoch>>
     anyHandOver |-> FALSE,                 \* a batch was handed to the HPC / a job was started
     marker    |-> FALSE,                   \* submitter.lock exists (marker events)
+    nodeEmpty |-> TRUE,                    \* the last look at the result files found no node file with rows
     sqfail    |-> {},                      \* pids whose scheduler query failed
     sqlie     |-> FALSE,                   \* the scheduler answered a status query with an empty listing while batches
                                            \* were active: JADE then believes them gone (limits and completeness are off)
@@ -237,7 +238,12 @@ OnLaunch(S, m, e) ==
       m2 == Check(m1, "OneLaunch", known, m.launches[j] = 0)
       m3 == Check(m2, "StartAfterBlockers", known /\ S.blk[j] # <<>>, BlkOf(S, j) \subseteq rows)
       m4 == Check(m3, "ProcsBound", known, e.live <= limit)
-      m5 == Check(m4, "CanceledNeverRuns", known, j \notin m.canceledJ)
+      m5a == Check(m4, "CanceledNeverRuns", known, j \notin m.canceledJ)
+      \* C04 in every epoch: a job carrying the flag is started only if none of the blockers that (re)ran in this epoch has
+      \* failed or was canceled -- otherwise it has to be canceled, not run (in later epochs only the rerun blockers count:
+      \* resubmit-jobs makes a rerun job wait only for them)
+      m5 == Check(m5a, "FlaggedWaitsForCleanBlockers", known /\ S.flag[j] /\ ~m.faulty /\ ~m.nodefault,
+                  \A k \in BlkOf(S, j) : (m.epoch = 0 \/ k \in m.rerun) => ~(k \in DOMAIN m.res /\ RFailed(m.res[k])))
       m6 == Check(m5, "DryRunNoLaunch", known, ~g.dry)
       m7 == Check(m6, "LaunchInOwnBatch", known /\ e.b >= 0, e.b \in DOMAIN m.bjobs /\ j \in ToSet(m.bjobs[e.b]))
       m8 == Check(m7, "RerunExactly", known /\ m.epoch > 0, j \in m.rerun)
@@ -279,7 +285,7 @@ OnRows(S, m, e) ==
       m2 == Check(m1, "RowsIntact", TRUE, allset \subseteq m.intents)
       m3 == Check(m2, "RowsNotDuplicated", TRUE, IsInj(all))
       m4 == Check(m3, "RowsNeverLost", TRUE, \A r \in m.appended : r \in allset)
-  IN m4
+  IN [m4 EXCEPT !.nodeEmpty = (CatNode(e.node) = <<>>)]
 
 OnCollected(S, m, e) ==
   LET rs == ToSet(e.rows)
@@ -318,7 +324,9 @@ OnStatus(S, m, e) ==
       a13 == Check(a12, "CompleteSticky", cont /\ prev.complete, e.complete)
       a14 == Check(a13, "BatchIndexMonotone", has, e.bidx >= prev.bidx)
       \* C10
-      a15 == Check(a14, "OneSubmitter", has /\ prev.sub # "" /\ e.sub # "", e.sub = prev.sub)
+      a15a == Check(a14, "OneSubmitter", has /\ prev.sub # "" /\ e.sub # "", e.sub = prev.sub)
+      \* the role is given back only by the process that holds it (a command that was refused the role leaves it alone)
+      a15 == Check(a15a, "RoleReleasedByHolder", released /\ ~m.faulty /\ m.holder # 0, e.pid = m.holder)
       \* C05
       a16 == Check(a15, "CompleteHasAllResults",
                    becameComplete /\ FaultFree(m) /\ ~AnyDry(S) /\ ~m.cancelSeen /\ ~e.canceled /\ Acyclic(S) /\ m.epoch = 0,
@@ -418,8 +426,13 @@ OnSummary(S, m, e) ==
                     nset = J /\ miss = {} /\ IsInj(names) /\ \A j \in J : cls(j) = S.ref[j])
       a11 == Check(a10b, "RerunAllFresh", allran /\ m.epoch > 0 /\ IsInj(names),
                    \A j \in m.rerun : j \in nset /\ m.launches[j] = (IF cls(j) = "canceled" THEN 0 ELSE 1))
+      \* C04 per epoch, independent of the schedule: among the rerun jobs, canceled exactly when flagged and some blocker that
+      \* was itself rerun failed or was canceled in this epoch
+      a11b == Check(a11, "RerunCanceledIff", allran /\ m.epoch > 0 /\ IsInj(names) /\ m.rerun \subseteq nset,
+                    \A j \in m.rerun : (cls(j) = "canceled") <=>
+                        (S.flag[j] /\ \E k \in BlkOf(S, j) \cap m.rerun : cls(k) \in {"failed", "canceled"}))
       \* same name, return code, status and times (the HPC id is not part of what must be preserved)
-      a12 == Check(a11, "UntouchedPreserved", m.epoch > 0,
+      a12 == Check(a11b, "UntouchedPreserved", m.epoch > 0,
                    \A k \in 1..Len(m.prevSummary) : m.prevSummary[k][1] \notin m.rerun =>
                       \E x \in 1..Len(e.res) : SubSeq(e.res[x], 1, 5) = SubSeq(m.prevSummary[k], 1, 5))
       a13 == Check(a12, "UntouchedNotRerun", m.epoch > 0, \A j \in J \ m.rerun : m.launches[j] = 0)
@@ -481,7 +494,11 @@ OnEnd(S, m, e) ==
   LET \* C05 (bounded form of eventual completion on the real code)
       m1 == Check(m, "CompletesAfterRecovery",
                   e.full /\ S.mode = "hpc" /\ (~m.faulty \/ ~m.otherFaults) /\ ~AnyDry(S) /\ m.hasSt, m.st.complete)
-      m2 == Check(m1, "ActiveBatchesCancelled", m.cancelSeen /\ m.cleanAtCancel, m.activeAtCancel \subseteq m.scancelled)
+      \* C08, second half: when no node file holds rows any more, every result a runner wrote has been reported as newly
+      \* completed to some submitter round (a row that reached the consolidated file by another way was reported to nobody)
+      m1b == Check(m1, "CollectedRowsReported", m.nodeEmpty /\ ~m.faulty /\ ~m.nodefault,
+                   \A r \in m.appended : r[3] = "finished" => r \in m.reported)
+      m2 == Check(m1b, "ActiveBatchesCancelled", m.cancelSeen /\ m.cleanAtCancel, m.activeAtCancel \subseteq m.scancelled)
       m2z == Check(m2, "NoDeadEnd", e.full /\ m.resubSeen /\ ~m.faulty /\ S.mode = "hpc" /\ m.hasSt, m.st.complete)
       \* local mode: the one process runs everything; with or without lifecycle commands the results get recorded
       m2a == Check(m2z, "LocalRunRecordsResults", e.full /\ S.mode = "local" /\ ~m.faulty, m.summaries >= 1)
@@ -536,7 +553,7 @@ ClausesOf(c) ==
     [] c = "C02" -> {"StartAfterBlockers", "HandoverCoversUnfinished"}
     [] c = "C03" -> {"FinalResultsComplete", "FinalResultsMatchReference", "OneEntryPerJob", "LocalRunRecordsResults"}
     [] c = "C04" -> {"CanceledShape", "CanceledNeverRuns", "CanceledOnlyIf", "CanceledIff", "RanExactlyOnceUnlessCanceled",
-                     "NotCanceledRuns"}
+                     "NotCanceledRuns", "FlaggedWaitsForCleanBlockers", "RerunCanceledIff"}
     [] c = "C05" -> {"QuiescentRoundProgress", "NoIdleLeftover", "CompleteHasAllResults", "SummaryBeforeFlag", "CompleteOnce",
                      "SummaryOnlyBeforeFlag", "NodeRoundAfterBatch", "CompleteSummaryHasAll",
                      "NoSbatchAfterComplete", "CompletesAfterRecovery"}
@@ -544,11 +561,12 @@ ClausesOf(c) ==
     [] c = "C07" -> {"BatchNonEmpty", "BatchJobsKnown", "OneGroup", "BatchSizeOrTime", "BlockedOnlyWithAllBlockers",
                      "HandoverCoversUnfinished", "GroupOptions", "DryRunNoSbatch", "DryRunNoLaunch", "DryRunSame"}
     [] c = "C08" -> {"ProcessedParses", "RowsIntact", "RowsNotDuplicated", "RowsNeverLost", "EachRowReportedOnce",
-                     "ReportedRowsReal", "AllRowsReported"}
+                     "ReportedRowsReal", "AllRowsReported", "CollectedRowsReported"}
     [] c = "C09" -> {"StatusJobsMatchConfig", "CountersOrdered", "CompletedMatchesDone", "SubmittedMatchesStates", "DoneHasResult",
                      "VersionFilesAgree", "SubmittedHasNoBlockers", "VersionsNeverDecrease", "VersionsIncreaseWithChange",
                      "CountersMonotone", "StateAdvances", "BlockersShrink", "CompleteSticky", "BatchIndexMonotone"}
-    [] c = "C10" -> {"OneSubmitter", "PromotionRefusedWhileHeld", "PromotionGrantedOnlyWhenFree", "StaleWriteRejected"}
+    [] c = "C10" -> {"OneSubmitter", "PromotionRefusedWhileHeld", "PromotionGrantedOnlyWhenFree", "StaleWriteRejected",
+                     "RoleReleasedByHolder"}
     [] c = "C11" -> {"OnePlacement", "OneLaunch", "StartAfterBlockers", "RowsNeverLost", "SqueueFailureHarmless", "FreshBatchIndex",
                      "CanceledNeverRuns", "AfterSqueueFaultNormal", "CompletesAfterRecovery"}
     [] c = "C12" -> {"MissingExact", "NoFabricatedResult", "FinishedKeepResults", "ResultKnownJob", "ResultStatusKnown", "OneResultPerJob",
